@@ -14,7 +14,7 @@ CHECKS = {
             "Trusted: reference layout writers and colour function in vf/img/formats.py (my reading of the formats); MGE composite table only judged structurally and against mge_viewer2.CMP.",
             "DESIGN.md §2 C16"),
     "C17": ("model_checking",
-            "deviation-bounded exhaustive exploration of a nondeterministic reference encoder's choice tree; every encoding decoded by the real tool and compared with the original picture",
+            "deviation-bounded exhaustive exploration of a nondeterministic reference encoder's choice tree; every encoding decoded by the real tool and compared with the original picture; composite-palette MGE judged differentially against the decode of its uncompressed form",
             "All encodings of structured pictures reachable with <= d non-default encoder choices (run length/splitting, literal vs repeat, escape use, CM3 copy-left/copy-up/literal/raw line, VEF packet forms and padding) are decoded by the real decoder; d=1 quick, d=2 thorough; choice points are opened at the first/last runs, lines and records (stated in evidence caps).",
             "Trusted: validity of encodings = reference encoder in vf/img/formats.py. RAT pictures avoid low nibbles >= 8 except for the dedicated known-finding picture.",
             "DESIGN.md §2 C17"),
@@ -44,7 +44,7 @@ CHECKS = {
             "Trusted: vf/b09/syntax.py (reserved words bound to the BASIC09 binary's token table, ecb.b09 must parse). Programs whose source has unbalanced FOR/NEXT are outside the fragment.",
             "DESIGN.md §2 C07"),
     "C13": ("model_checking",
-            "bounded-exhaustive enumeration of runtime-using programs (singles, pairs, templates x operand shapes, hostile user text x text positions, procedure names, string sizes) with an independent reachability closure over the parsed library call graph",
+            "bounded-exhaustive enumeration of runtime-using programs (singles, pairs, templates x operand shapes, hostile user text x text positions, procedure names, string sizes) with an independent reachability closure over the parsed library call graph; user text (literals, DATA items, remarks, hostile look-alikes of calls / headers / placeholders) must appear verbatim in the user's procedure",
             "For each program the bundle must equal: sorted closure of the RUN graph (library parsed by the reference BASIC09 parser), each once, program last; all RUNs resolve; placeholders replaced by the requested size; user procedure identical to the dependency-free output.",
             "Trusted: call graph from vf/b09/syntax.py parse of ecb.b09; OS-9 modules gfx, gfx2, syscall, inkey.",
             "DESIGN.md §2 C13"),
@@ -54,17 +54,17 @@ CHECKS = {
             "Trusted: vf/b09/syntax.py + three-kind typer vf/b09/typer.py. Outputs that do not parse are examined textually for empty/missing arguments.",
             "DESIGN.md §2 C14"),
     "C06": ("model_checking",
-            "bounded-exhaustive enumeration of programs with arbitrary reference graphs (line-number sets x reference-bearing constructs x all targets incl. self / line 0 / missing line) x filter x add_suffix, against the generator's own reference graph",
+            "bounded-exhaustive enumeration of programs with arbitrary reference graphs (line-number sets x reference-bearing constructs x all targets incl. self / line 0 / missing line) x filter x add_suffix, against the generator's own reference graph; the same jump/label rule is applied to every bundled procedure of the live ecb.b09",
             "For every enumerated program the expected outcome (documented refusal, or the exact label set, jump targets, marker order and dispatcher routing) is computed from the generator's reference graph and compared with the parsed output of the real convert().",
             "Trusted: vf/b09/syntax.py; dispatcher routing is interpreted for the three statement forms it uses; 'errnum' is bound to the injected error number (its being undefined is a separate known finding).",
             "DESIGN.md §2 C06"),
     "C09": ("model_checking",
-            "exhaustive enumeration of every variable name of length <= 3 (34 658 names; + length 4 over a reduced tail alphabet in thorough) in all four kinds and 13 syntactic positions, identifiers read from the parsed output",
+            "exhaustive enumeration of every variable name of length <= 3 (34 658 names; + length 4 over a reduced tail alphabet in thorough) in all four kinds and 13 syntactic positions, identifiers read from the parsed output; plus every reserved word of Color BASIC / BASIC09 and every identifier the tool generates, alone and embedded in a name, one program per syntactic position; plus programs that make the tool emit each of its own identifiers",
             "For every name the multiset of user identifiers on every emitted line must be exactly name[:2]+suffix (arr_ for arrays), in the pre-initialisation prologue too; user identifiers never match generated ones. Since the map is checked to be the identity on (first two characters, suffix, kind) for every name, the pair property follows.",
             "Trusted: vf/b09/syntax.py for reading identifiers. Names starting with DO/PI/SQ are the C07 reserved-word finding and are only counted here.",
             "DESIGN.md §2 C09"),
     "C10": ("model_checking",
-            "exhaustive enumeration of (syntactic position x variable kind x DIM form x string-size option x size map x initialize_vars) programs, one variable under test each, plus same-name scalar/array programs; declarations and uses read from the parsed output",
+            "exhaustive enumeration of (syntactic position x variable kind x DIM form x string-size option x size map x initialize_vars) programs, one variable under test each, plus same-name scalar/array programs; declarations and uses read from the parsed output; all splits of the DIM items over several DIM statements, the variable under test inside every IF / ELSE IF arm, the string sizes of the bundled library procedures, and the command line's -s over its boundary values",
             "For every enumerated program: each array declared exactly once before first use with bound+1 (11 per used dimension when never DIMensioned), no identifier declared twice, and with a non-32 default every string identifier (temporaries included) carries STRING[n] with the configured/default n.",
             "Trusted: vf/b09/syntax.py. Re-DIMensioning programs (?DD ERROR in Color BASIC) are outside the fragment.",
             "DESIGN.md §2 C10"),
@@ -104,7 +104,7 @@ CHECKS = {
             "Trusted: role table vf/checks/c04.py ROLES (Extended/Super Extended BASIC manuals, DESIGN Appendix B); _ecb_start modelled as storing marker values in the display record.",
             "DESIGN.md §2 C04, Appendix B"),
     "C05": ("model_checking",
-            "bounded-exhaustive enumeration of statement templates x operand shapes built from convertible functions (single, sibling, nested in each other / in built-ins / in subscripts) with scripted device answers; the BASIC09 model's runtime-call log is compared with the Color BASIC model's evaluation log",
+            "bounded-exhaustive enumeration of statement templates x operand shapes built from convertible functions (single, sibling, nested in each other / in built-ins / in subscripts) with scripted device answers; the BASIC09 model's runtime-call log is compared with the Color BASIC model's evaluation log; each statement is also re-executed through a jump back to its own line, placed in every control context, and the emitted text is checked statically for temporaries read before the text of the same source line assigns them",
             "For every program the sequence of runtime procedure calls (name, input arguments) made by the translation must equal Color BASIC's evaluation order (innermost first, left to right, target subscripts before the right-hand side); reading a temporary that was not assigned is reported by the interpreter; final values agree.",
             "Trusted: evaluation-order rules of the Color BASIC model; device functions answer 10n+1 on their n-th call. STR$'s known trailing blank is neutralised here (judged in C01/C03).",
             "DESIGN.md §2 C05"),
